@@ -94,7 +94,8 @@ DEFAULT_IDS = ["none", "i0", "false", "s_empty", "i1", "s_a"]
 ARG_IDS = ["none", "i0", "i1", "true", "s_empty", "s_a"]
 
 
-def module(mode: str, depth: int = 1, chunk: int = 300, max_params: int = 2) -> str:
+def module(mode: str, depth: int = 1, chunk: int = 300, max_params: int = 2, min_params: int = 1,
+           arg_ids=None, default_ids=None) -> str:
     atoms = [Rec(id=a["id"], c=a["c"], core=a["core"], tiny=a["tiny"], key=a["key"], key1=a["key1"], sup=a["sup"]) for a in ATOMS]
     return "\n".join([
         "---- MODULE ValuesConf ----",
@@ -102,7 +103,8 @@ def module(mode: str, depth: int = 1, chunk: int = 300, max_params: int = 2) -> 
         "Depth == %d" % depth,
         "Chunk == %d" % chunk,
         "GenMode == %s" % tlax(mode),
-        "DefaultIds == %s" % tlax(set(DEFAULT_IDS)),
-        "ArgIds == %s" % tlax(set(ARG_IDS)),
+        "DefaultIds == %s" % tlax(set(default_ids or DEFAULT_IDS)),
+        "ArgIds == %s" % tlax(set(arg_ids or ARG_IDS)),
         "MaxParams == %d" % max_params,
+        "MinParams == %d" % min_params,
         "====", ""])
